@@ -582,9 +582,19 @@ class Models:
                 outs.append(Outcome("raise", r.exc, r.st))
                 continue
             it = r.v
+            if isinstance(it, SGuard):
+                for g, alt in V.as_guards(it):
+                    s2 = r.st.fork()
+                    s2.assume(g)
+                    if ex.feasible is None or ex.feasible(s2.pc):
+                        if alt is None:
+                            outs.append(Outcome("raise", ExcVal(TypeError, ("not iterable",)), s2))
+                        else:
+                            outs.extend(ex.unroll(s.target, self.iter_concrete(ex, alt, s), s.body, s.orelse, s2))
+                continue
             if isinstance(it, GenCall):
                 outs.extend(self.for_generator(ex, s, it, r.st))
-            elif isinstance(it, SSeq) or hasattr(it, "__pyvc_symbolic_iter__"):
+            elif isinstance(it, SSeq) or hasattr(it, "__pyvc_symbolic_iter__") or (isinstance(it, SOpaque) and it.sort == "PatternList"):
                 outs.extend(self.for_symbolic(ex, s, it, r.st))
             else:
                 items = self.iter_concrete(ex, it, s)
@@ -638,6 +648,8 @@ class Models:
         if spec is None:
             ex.unsupported(s, f"loop #{ordinal} over symbolic sequence needs an invariant in the sidecar")
         a = st.ghost.get("args")
+        if isinstance(seq, SOpaque) and seq.sort == "PatternList":
+            seq = OpaquePatternList(seq)
         if isinstance(seq, SSeq):
             n = V.v_len(seq)
         elif hasattr(seq, "seq"):
@@ -807,7 +819,17 @@ class Models:
                 outs.append(r)
                 continue
             it = r.v
-            if isinstance(it, GenCall):
+            if isinstance(it, SGuard):
+                items_res = []
+                for g, alt in V.as_guards(it):
+                    s2 = r.st.fork()
+                    s2.assume(g)
+                    if ex.feasible is None or ex.feasible(s2.pc):
+                        if alt is None:
+                            items_res.append(Exc(ExcVal(TypeError, ("not iterable",)), s2))
+                        else:
+                            items_res.append(Val(self.iter_concrete(ex, alt, node), s2))
+            elif isinstance(it, GenCall):
                 items_res = self.collect_generator(ex, it, r.st, node)
             elif isinstance(it, SSeq) or hasattr(it, "__pyvc_symbolic_iter__"):
                 outs.extend(self.symbolic_comprehension_outcomes(ex, node, gen, it, r.st, kind))
@@ -1368,7 +1390,8 @@ class Models:
             ver = fs_version(st)
             st.emit("Read", f.path.s)
             if "b" in f.mode:
-                ex.unsupported(node, "binary read")
+                # bytes of the file: the utf-8 encoding of its text (only ASCII needles are searched in it)
+                return [Val(BytesVal(SStr(FS_CONTENT(V.z3str(f.path.s), z3.IntVal(ver)))), st)]
             return [Val(SStr(FS_CONTENT(V.z3str(f.path.s), z3.IntVal(ver))), st)]
         if name == "write":
             st.emit("Write", f.path.s, args[0], f.mode)
@@ -1461,8 +1484,49 @@ class Models:
 
         M[zip] = m_zip
 
+        def m_reversed(ex, args, kwargs, st, node):
+            return [Val(list(reversed(self.iter_concrete(ex, args[0], node))), st)]
+
+        M[reversed] = m_reversed
+
+        import itertools as _it
+
+        def m_dropwhile(ex, args, kwargs, st, node):
+            pred, items = args[0], self.iter_concrete(ex, args[1], node)
+            out = []
+            cur = st
+            for i, it in enumerate(items):
+                if cur is None:
+                    break
+                rs = self.call(ex, pred, [it], {}, cur, node)
+                if len(rs) != 1 or not isinstance(rs[0], Val):
+                    ex.unsupported(node, "dropwhile predicate forks")
+                t, f = ex.split(ex.truthy(rs[0].v, rs[0].st), rs[0].st)
+                if f is not None:
+                    out.append(Val(list(items[i:]), f))
+                cur = t
+            if cur is not None:
+                out.append(Val([], cur))
+            return out
+
+        M[_it.dropwhile] = m_dropwhile
+
         def m_sorted(ex, args, kwargs, st, node):
             x = args[0]
+            if isinstance(x, GenCall):
+                gc = self.registry.get(x.fr.qualname)
+                if gc is not None and getattr(gc, "as_list", None) is not None and x.fr.qualname != ex.top and not kwargs:
+                    out = []
+                    for r in gc.as_list(ex, x, st, node):
+                        if isinstance(r, Exc):
+                            out.append(r)
+                        else:
+                            from contracts.diff import sorted_path_items
+
+                            lst = sorted_path_items(ex, r.v, r.st)
+                            r.st.ghost["diff_items"] = lst
+                            out.append(Val(lst, r.st))
+                    return out
             if isinstance(x, GenCall):
                 out = []
                 for r in self.collect_generator(ex, x, st, node):
@@ -1651,6 +1715,20 @@ class Models:
             raise Unsupported(f"isinstance({v!r}, {t!r})")
 
 
+class OpaquePatternList:
+    """A list of compiled patterns of unknown length; elements expose raw_pattern/version_pattern text."""
+
+    __pyvc_symbolic_iter__ = True
+
+    def __init__(self, op):
+        self.op = op
+        self.n = z3.Int(fresh_name("npatterns"))
+
+    def __pyvc_elem__(self, k):
+        tag = fresh_name("pattern")
+        return SOpaque("Pattern", z3.Const(tag, V.opaque_sort("Pattern")), attrs=dict(raw_pattern=V.sstr(tag + ".raw_pattern"), version_pattern=V.sstr(tag + ".version_pattern"), regexp=SOpaque("Regex", z3.Const(tag + ".regexp", V.opaque_sort("Regex")))))
+
+
 class ProcVal:
     """subprocess.Popen object (A-proc): pipes are not modelled (they only feed log text)."""
 
@@ -1676,6 +1754,11 @@ class BytesVal:
         if name == "decode":
             return [Val(self.s, st)]
         raise Unsupported(f"bytes.{name}")
+
+    def __pyvc_contains__(self, needle):
+        if isinstance(needle, bytes) and needle.isascii():
+            return z3.Contains(V.z3str(self.s), z3.StringVal(needle.decode("ascii")))
+        raise Unsupported("bytes containment")
 
 
 class SymSet:
